@@ -213,6 +213,58 @@ impl Script<'_> {
         self.w.agree(&[])
     }
 
+    /// An outside party joins by external commit (optionally injecting an external PSK); the victim processes that commit
+    /// under fault enumeration.
+    fn external_commit(&mut self, sel: u16, flags: u16) -> CaseResult {
+        let others = self.others();
+        if others.is_empty() || self.w.members().len() >= 6 {
+            return Ok(());
+        }
+        let via = others[pick(sel, others.len())];
+        self.w.flush(0)?;
+        let y = self.w.new_party();
+        let with_psk = flags & 1 != 0;
+        self.w.parties[y].pstore.put(b"psk\x00", &[1; 32]);
+        let t = self.w.now();
+        let gi = {
+            let party = &self.w.parties[via];
+            guard(|| party.g().group_info_message_allowing_ext_commit(true)).map_err(|e| setup_failure(P, "group_info", &e))?
+        };
+        let (g, commit) = {
+            let party = &self.w.parties[y];
+            guard(|| {
+                let mut b = party.client.external_commit_builder()?.commit_time(t);
+                if with_psk {
+                    b = b.with_external_psk(mls_rs::psk::ExternalPskId::new(b"psk\x00".to_vec()));
+                }
+                b.build(gi.clone())
+            })
+            .map_err(|e| setup_failure(P, "external_commit", &e))?
+        };
+        let bytes = commit.to_bytes().expect("enc");
+        for m in self.w.members() {
+            if m != self.victim {
+                self.w.process(m, &bytes).map_err(|e| setup_failure(P, "process(external commit)", &e))?;
+            }
+        }
+        self.faulted("process_external_commit", Kind::Deterministic, |g| {
+            let m = MlsMessage::from_bytes(&bytes)?;
+            match g.process_incoming_message_with_time(m, t)? {
+                ReceivedMessage::Commit(_) => Ok(()),
+                _ => Err(mls_rs::error::MlsError::UnexpectedMessageType),
+            }
+        })?;
+        self.w.epoch += 1;
+        self.w.commits += 1;
+        let epoch = self.w.epoch;
+        let party = &mut self.w.parties[y];
+        party.group = Some(g);
+        party.status = Status::Member;
+        party.joined_epoch = epoch;
+        self.ev.class(if with_psk { "external_commits_with_psk_processed_under_faults" } else { "external_commits_processed_under_faults" });
+        self.w.agree(&[])
+    }
+
     /// The victim commits: build and apply under fault enumeration.
     fn victim_commit(&mut self, flags: u16) -> CaseResult {
         // sometimes another member has proposed an external PSK by reference: the victim's commit then consults the PSK
@@ -463,7 +515,8 @@ fn run_case(case: &Case, ev: &Evidence, pairs: bool) -> CaseResult {
     let mut held: Vec<Vec<u8>> = vec![];
     for op in &case.ops {
         let r: CaseResult = (|| {
-            match pick_weighted(op[0], &[18, 22, 16, 10, 12, 8, 8, 6]) {
+            match pick_weighted(op[0], &[18, 22, 16, 10, 12, 8, 8, 6, 7]) {
+                8 => s.external_commit(op[1], op[2]),
                 0 => s.write_with(op[2] % 3 == 0),
                 1 => s.other_commit(op[1], op[2]),
                 2 => s.victim_commit(op[2]),
@@ -562,6 +615,7 @@ pub fn run(ctx: &Ctx) -> ! {
     let ev = Evidence::new(P, ctx.tier, ctx.seed, "fault_enumeration");
     ev.set_rule(
         "generated scripts around one victim member over {in-memory, SQLite, tee} storage and retention 1..4: join by Welcome, writes, commits by others (optionally with external PSK, \
+         external commits by outsiders (with and without an injected external PSK), \
          resumption PSK, add), commits by the victim (build + apply, optionally with PSKs), late application messages of prior epochs, reloads, current traffic. For EVERY operation, the storage \
          call with index k = 0, 1, 2, ... (group state, key package and PSK stores share one counter) is made to fail once, until an execution completes without reaching the faulted index \
          (= every storage call of the operation has failed once; thorough: also adjacent pairs). Oracle per fault point: the operation returns an error, the victim's complete state (hook) is \
